@@ -674,6 +674,10 @@ func (e *schedEnv) replay(b *schedBehaviour, raw []byte) bool {
 						q.release <- struct{}{}
 						e.res.Negative++
 						time.Sleep(300 * time.Microsecond)
+						if (b.ID+i)%12 == 0 {
+							// now and then the holder keeps the file for a while: waiting means waiting, not polling for a moment
+							time.Sleep(250 * time.Millisecond)
+						}
 					}
 				}
 			}
